@@ -49,7 +49,7 @@ func init() {
 			}},
 		{ID: "E1.code.server-handler", Fn: "op.(*webServer).codeExchangeHandler", P: []string{"s", "w", "r", "client"}, Kind: "call", Pat: "$s.server.CodeExchange(_, op.newClientRequest($r, $request, $client))", Max: 1,
 			Req: []string{`neq($request.Code, "")`, `neq($request.RedirectURI, "")`, "def($request, op.decodeRequest($s.decoder, $r, false), 0)"}},
-		{ID: "E1.pkce.verify", Fn: "oidc.VerifyCodeChallenge", P: []string{"c", "v"}, Kind: "ret any", Not: "ret(false)",
+		{ID: "E1.pkce.verify", Fn: "oidc.VerifyCodeChallenge", P: []string{"c", "v"}, Kind: "ret ok", MutOK: []string{"v"},
 			Why: "a nil challenge never verifies; the comparison is against the transformed verifier",
 			Req: []string{"nonnil($c)"}},
 		{ID: "E1.code.single-use", Fn: "op.CreateTokenResponse", P: []string{"ctx", "request", "client", "creator", "createAccessToken", "code", "refreshToken"}, Kind: "ret ok", Max: 1,
